@@ -81,6 +81,8 @@ Deriv(s, prm, ks) ==
 \* --- views -----------------------------------------------------------------
 Weights(s) == TLCEval([i \in 1..Len(s.P) |-> IF s.rat THEN s.P[i][CDim(s)] ELSE One])
 Ctrlpts(s) == TLCEval([i \in 1..Len(s.P) |-> IF s.rat THEN Project(s.P[i]) ELSE s.P[i]])
+\* (x, y, z), w -> (x w, y w, z w, w)
+Combine(P, W) == TLCEval([i \in 1..Len(P) |-> VScale(W[i], P[i]) \o <<W[i]>>])
 RECURSIVE RMinSeq(_)
 RMinSeq(q) == IF Len(q) = 1 THEN q[1] ELSE RMin(q[1], RMinSeq(Tail(q)))
 RECURSIVE RMaxSeq(_)
